@@ -158,8 +158,18 @@ def _run_unit(unit_name, rlimit=None, extra_args=()):
             # primary span is the call site; the failed requires clause is the secondary span
             owner = o["owner"]
         labs = [x.lstrip("~") for x in labels_of(o["label"])] if o["kind"] in ("spec", "raw") else []
-        rec = dict(fn=owner, kind=kind, message=msg, gen_line=ln_no, src=o.get("src"), text=srctext[:160],
-                   where=where, origin_kind=o["kind"])
+        callee_clause = None
+        if kind == "precondition" and not labs:
+            # the call site is the primary span; the violated `requires` clause of the callee is a secondary span: name the failure after it
+            for sp2 in d.get("spans", []):
+                if not sp2.get("is_primary") and 0 < sp2["line_start"] <= len(origin):
+                    o2 = origin[sp2["line_start"] - 1]
+                    if o2["kind"] in ("spec", "raw") and o2["label"]:
+                        labs = [x.lstrip("~") for x in labels_of(o2["label"])]
+                        callee_clause = "%s requires (%s)" % (o2["owner"], o2["label"].replace("~", ""))
+                        break
+        rec = dict(fn=owner, kind=kind, message=msg if not callee_clause else "%s: precondition of the callee not established at this call - %s" % (msg, callee_clause),
+                   gen_line=ln_no, src=o.get("src"), text=srctext[:160], where=where, origin_kind=o["kind"])
         if labs and kind in ("postcondition", "invariant", "assertion", "precondition"):
             for lab in labs:
                 r2 = dict(rec); r2["obligation"] = "%s::%s" % (owner, lab); r2["label"] = lab
